@@ -523,5 +523,48 @@ def r11_client_per_call(chk: Check) -> None:
         chk.undecided("C06.R11", "<discovery>", f"sites={n}", "fewer client factories than confirmed by hand")
 
 
+def r12_coercion_applied_last(chk: Check) -> None:
+    chk.rule("C06.R12", "ORDER(string coercion vs joining, through the composition order): the per-parameter conversions a serializer generator yields are applied by `composed` in REVERSED order; `to_string(name)` (headers / cookies become `str(value)`) must be the LAST conversion applied - if it runs before `delimited(...)` / the `*_object` / label / matrix conversions, these receive the Python repr of the list (`\"[3, 0, 15]\"`) and leave it alone: the wire value is the repr, not the collection format", floor=3)
+    P = chk.project
+    mod = P.module("specs/openapi/serialization.py")
+    ms = mod.functions.get("make_serializer.<locals>._wrapper.<locals>.composed") or next((f for q, f in mod.functions.items() if q.endswith("composed")), None)
+    if ms is None:
+        raise Undecided("make_serializer's composed() not found")
+    loops = [l for l in walk_body(ms.node) if isinstance(l, ast.For)]
+    if not loops:
+        raise Undecided("composition loop not found")
+    rev = isinstance(loops[0].iter, ast.Call) and last_attr(loops[0].iter) == "reversed"
+    plain = isinstance(loops[0].iter, ast.Name)
+    if not rev and not plain:
+        chk.undecided("C06.R12", ms, "composition order", f"iteration over `{unparse(loops[0].iter)}` not recognised", ms.loc(loops[0]))
+        return
+    chk.ok("C06.R12", ms, "composition order", "reversed: the first conversion yielded is applied last" if rev else "in yield order", ms.loc(loops[0]))
+    n = 0
+    for fn in mod.functions.values():
+        if isinstance(fn.node, ast.Lambda):
+            continue
+        ys = [y for y in walk_body(fn.node) if isinstance(y, ast.Yield) and isinstance(y.value, ast.Call)]
+        coer = [y for y in ys if last_attr(y.value) == "to_string"]
+        other = [y for y in ys if last_attr(y.value) not in ("to_string", "nothing")]
+        if not coer:
+            continue
+        n += 1
+        g = cfg_of(fn)
+        heads = [x.id for x in g.live() if x.kind == "for"]
+        cn = [i for y in coer for i in g.stmt_nodes_containing(y)]
+        on = [i for y in other for i in g.stmt_nodes_containing(y)]
+        construct = f"{fn.name}: to_string is applied after the structural conversions"
+        # reversed composition: to_string has to be YIELDED first, i.e. no path from a structural yield to the to_string yield
+        w = g.path(on, cn, avoid=heads) if rev else g.path(cn, on, avoid=heads)
+        if w is None:
+            chk.ok("C06.R12", fn, construct, "", fn.loc(coer[0]))
+        else:
+            chk.violation("C06.R12", fn, construct,
+                          "on this path the coercion to `str` runs BEFORE the joining conversion: an array header is sent as `[3, 0, 15]` / `['a', 'b']` instead of `3,0,15` / `a,b` (collectionFormat / simple style ignored)",
+                          fn.loc(coer[0]), g.describe_path(w, fn.module.relpath))
+    if n < 3:
+        chk.undecided("C06.R12", "<discovery>", f"sites={n}", "fewer coercing generators than confirmed by hand")
+
+
 def rules(tier: str) -> list:  # type: ignore[type-arg]
-    return [r1_registries, r2_content_type, r3_quote_all, r3b_template_ownership, r4_header_writers, r5_cookie_pair, r6_no_truthiness_rewrite, r7_sanitizer_on_copies, r8_worklist_pushes_elements, r9_merge_builds_new_container, r10_json_spelling_in_style_serializers, r11_client_per_call, rfwd_forwarding]
+    return [r1_registries, r2_content_type, r3_quote_all, r3b_template_ownership, r4_header_writers, r5_cookie_pair, r6_no_truthiness_rewrite, r7_sanitizer_on_copies, r8_worklist_pushes_elements, r9_merge_builds_new_container, r10_json_spelling_in_style_serializers, r11_client_per_call, r12_coercion_applied_last, rfwd_forwarding]
